@@ -785,7 +785,9 @@ def run_session(case):
 
     patches = [(IH.InputHandler, "__init__", ih_init), (IH.PasswordInputHandler, "__init__", pih_init),
                (IH.InputHandler, "_input_received_handler", ih_recv),
-               (IH.InputHandlerRequest, "_get_input", staticmethod(fake_get_input)),
+               # the scripted reader stands in for the builtin input() as seen from input_handler.py: the library's own
+               # InputHandlerRequest._get_input runs (what it does with the line read is part of C06 "intact")
+               (IH, "input", fake_get_input),
                (IT.InputRequest, "start_thread", start_thread),
                (IT.InputThreadManager, "start_input_thread", start_input),
                (IT.InputThreadManager, "_print_new_prompt", staticmethod(print_new)),
@@ -793,7 +795,8 @@ def run_session(case):
                (ML, "EventQueue", LoggedEQ), (SS, "ScreenData", SD)]
     if GLIB:                                             # C20 GLib branch
         patches.append((GEL, "EventLoopData", LoggedELD))
-    saved = [(o, n, o.__dict__[n]) for o, n, _ in patches]
+    MISSING = object()
+    saved = [(o, n, o.__dict__.get(n, MISSING)) for o, n, _ in patches]
     for o, n, v in patches:
         setattr(o, n, v)
     out = io.StringIO()
@@ -836,7 +839,11 @@ def run_session(case):
         ctl["killed"] = True
         line_ev.set()
         for o, n, v in saved:
-            setattr(o, n, v)
+            if v is MISSING:
+                if n in o.__dict__:
+                    delattr(o, n)
+            else:
+                setattr(o, n, v)
         sys.excepthook = old_hook
         if GLIB:                                         # C20 GLib branch: the default main context is shared by every
             GLib._pending_exc[0] = None                  # GLibEventLoop of the process: leave nothing attached
